@@ -58,8 +58,9 @@ func (h *JsonHandler) WithAttrs(attrs []slog.Attr) Handler {
 
 	h2 := h.clone()
 	for _, a := range attrs {
-		appendJsonAttr(&h2.preformatted, a, h2.addSep, h2.Options.colorful)
-		h2.addSep = true
+		if appendJsonAttr(&h2.preformatted, a, h2.addSep, h2.Options.colorful) {
+			h2.addSep = true
+		}
 	}
 	return h2
 }
@@ -124,8 +125,9 @@ func (h *JsonHandler) Handle(_ context.Context, r slog.Record) error {
 	if r.NumAttrs() > 0 {
 		addSep := h.addSep
 		r.Attrs(func(a slog.Attr) bool {
-			appendJsonAttr(buf, a, addSep, h.Options.colorful)
-			addSep = true
+			if appendJsonAttr(buf, a, addSep, h.Options.colorful) {
+				addSep = true
+			}
 			return true
 		})
 	}
@@ -140,33 +142,48 @@ func (h *JsonHandler) Handle(_ context.Context, r slog.Record) error {
 	return err
 }
 
-func appendJsonAttr(buf *[]byte, a slog.Attr, addSep bool, colorful bool) {
-	if addSep {
-		*buf = append(*buf, ',')
-		addSep = false
-	}
-
+// appendJsonAttr reports whether it wrote anything: an empty group is omitted, as slog
+// omits it from a record before any handler sees it.
+func appendJsonAttr(buf *[]byte, a slog.Attr, addSep bool, colorful bool) bool {
 	a.Value = a.Value.Resolve()
 	if a.Value.Kind() == slog.KindGroup {
-		if len(a.Key) > 0 {
-			*buf = append(*buf, '"')
-			appendJsonString(buf, a.Key)
-			*buf = append(*buf, '"', ':', '{')
+		attrs := a.Value.Group()
+		if len(attrs) == 0 {
+			return false
 		}
-		for _, aa := range a.Value.Group() {
-			appendJsonAttr(buf, aa, addSep, colorful)
-			addSep = true
+		if len(a.Key) == 0 {
+			written := false
+			for _, aa := range attrs {
+				if appendJsonAttr(buf, aa, addSep, colorful) {
+					addSep, written = true, true
+				}
+			}
+			return written
 		}
-		if len(a.Key) > 0 {
-			*buf = append(*buf, '}')
+		if addSep {
+			*buf = append(*buf, ',')
+			addSep = false
 		}
-		return
+		*buf = append(*buf, '"')
+		appendJsonString(buf, a.Key)
+		*buf = append(*buf, '"', ':', '{')
+		for _, aa := range attrs {
+			if appendJsonAttr(buf, aa, addSep, colorful) {
+				addSep = true
+			}
+		}
+		*buf = append(*buf, '}')
+		return true
 	}
 
+	if addSep {
+		*buf = append(*buf, ',')
+	}
 	*buf = append(*buf, '"')
 	appendJsonString(buf, a.Key)
 	*buf = append(*buf, '"', ':')
 	appendJsonValue(buf, a.Value, colorful)
+	return true
 }
 
 func appendJsonValue(buf *[]byte, v slog.Value, colorful bool) {
